@@ -152,6 +152,41 @@ pub fn run<S: Scenario>(s: &S, prefix: &[u16], keep_steps: bool) -> RunOut {
     }
 }
 
+/// Runs one execution choosing alternatives by their recorded labels (`<label>=<alternative>`),
+/// which survives changes of an alphabet's order; `None` if a recorded label is no longer offered.
+pub fn run_by_labels<S: Scenario>(s: &S, labels: &[String]) -> Option<RunOut> {
+    let mut x = s.start();
+    let mut choices = Vec::new();
+    let mut points = Vec::new();
+    let mut violation = None;
+    loop {
+        let Some(cp) = s.next(&mut x) else { break };
+        let i = choices.len();
+        let alt = if i < labels.len() {
+            let want = labels[i].strip_prefix(&format!("{}=", cp.label))?;
+            cp.alts.iter().position(|a| a == want)?
+        } else {
+            0
+        };
+        choices.push(alt as u16);
+        points.push(cp);
+        if let Err(v) = s.apply(&mut x, alt) {
+            violation = Some(v);
+            break;
+        }
+    }
+    if violation.is_none() {
+        if choices.len() < labels.len() {
+            return None;
+        }
+        if let Err(v) = s.finish(&mut x) {
+            violation = Some(v);
+        }
+    }
+    let summary = s.summary(&mut x);
+    Some(RunOut { choices, points, violation, summary, diverged: false })
+}
+
 #[derive(Clone, Debug)]
 pub struct Bounds {
     pub max_dev: u32,
@@ -522,6 +557,7 @@ pub trait DynCell: Sync {
     fn explore_dyn(&self, b: &Bounds) -> Result<Report, MachineryError>;
     fn replay_dyn(&self, choices: &[u16]) -> Result<RunOut, MachineryError>;
     fn shrink_dyn(&self, choices: Vec<u16>, property: &str, oracle: &str) -> Vec<u16>;
+    fn replay_labels_dyn(&self, labels: &[String]) -> Option<RunOut>;
 }
 
 impl<S: Scenario> DynCell for S {
@@ -539,6 +575,9 @@ impl<S: Scenario> DynCell for S {
     }
     fn shrink_dyn(&self, choices: Vec<u16>, property: &str, oracle: &str) -> Vec<u16> {
         shrink(self, choices, property, oracle)
+    }
+    fn replay_labels_dyn(&self, labels: &[String]) -> Option<RunOut> {
+        run_by_labels(self, labels)
     }
 }
 
